@@ -18,6 +18,7 @@ mod rec_decomp;
 mod replay_qdldl;
 mod replay_presolve;
 mod replay_update;
+mod replay_timers;
 
 use rand::rngs::StdRng;
 use rand::{Rng, SeedableRng};
@@ -189,6 +190,10 @@ fn main() {
             println!("z_ret {:?}", solver.solution.z);
             println!("s_aug {:?}", solver.variables.s);
             println!("s_ret {:?}", solver.solution.s);
+        }
+        "timers-replay" => {
+            let r = replay_timers::replay_file(&args.get("in", "b.ndjson"), &args.get("out", "m.ndjson"), args.num("every", 30) as usize, args.num("tick_ms", 2));
+            println!("{}", r);
         }
         "csc" => {
             let (lines, meta) = rec_csc::record(args.num("seed", 1), args.get("tier", "quick") == "thorough");
